@@ -204,7 +204,7 @@ pub struct Cfg {
     pub thorough: bool,
 }
 
-pub fn run<L: LmsSet>(t: &mut Tape, _cfg: &Cfg, out: &mut RunOut) {
+pub fn run<L: LmsSet, L2: LmsSet>(t: &mut Tape, _cfg: &Cfg, out: &mut RunOut) {
     let eng = format!("lms/{}", L::NAME);
     let prm = L::PRM;
     let mut rng = SimRng::new(t.seed64());
@@ -252,6 +252,21 @@ pub fn run<L: LmsSet>(t: &mut Tape, _cfg: &Cfg, out: &mut RunOut) {
         "LMS {} life: {} sign requests, {} verifiers, net drop/dup/reorder/corrupt={}/{}/{}/{} per 1000, crash {} disk_err {} rng_repeat {} heal_at {}ms",
         L::NAME, nreq, nverifiers, net.drop, net.dup, net.reorder, net.corrupt, crash_rate, disk_err_rate, rng_repeat_rate, heal_at / MS
     );
+
+    // ---- foreign verifiers (a quarter of the lives): another key of the same parameter set, and a key of
+    // another parameter set. Nothing signed by this life's key may verify under either.
+    let foreign: Option<(L::Pk, Vec<u8>, Vec<u8>, L2::Pk)> = if t.chance(1, 4) {
+        let mut frng = SimRng::new(harness_rng.u64());
+        frng.tap = Some(Vec::new());
+        let fk = L::generate(&mut frng);
+        let tap = frng.tap.take().unwrap();
+        let fmodel = rl::RefKey::generate(prm, &tap[0], &tap[1]);
+        let fk2 = L2::generate(&mut frng);
+        out.probe("probe.lms.foreign_verifiers_present");
+        Some((L::public(fk), tap[0].clone(), fmodel.root().to_vec(), L2::public(fk2)))
+    } else {
+        None
+    };
 
     // ---- service state
     let mut ram: Option<L::Sk> = Some(sk0);
@@ -600,6 +615,20 @@ pub fn run<L: LmsSet>(t: &mut Tape, _cfg: &Cfg, out: &mut RunOut) {
                 out.probe("probe.lms.delivery_verified");
                 if !intact && sig.len() == prm.sig_len() {
                     out.probe("probe.lms.altered_right_length_signature_reached_verifier");
+                }
+                if let Some((fpk, fid, froot, fpk2)) = foreign.as_ref() {
+                    // same bytes under a foreign key of the same set, and under a key of another parameter set
+                    let f1 = guard_c19(out, &eng, "call.lms.verify", || format!("foreign key; sig {}", hex_abbrev(&sig)), || L::verify(*fpk, &sig, &msg)).unwrap_or(false);
+                    let m1 = rl::verify(&prm, fid, froot, &msg, &sig);
+                    let f2 = guard_c19(out, &eng, "call.lms.verify", || format!("other parameter set; sig {}", hex_abbrev(&sig)), || L2::verify(*fpk2, &sig, &msg)).unwrap_or(false);
+                    out.ev(format_args!("verifier{} req{} foreign-key -> {} other-set -> {}", to, req, f1, f2));
+                    if f1 || m1 || f2 {
+                        out.violate(
+                            "C16",
+                            format!("{}/reject:accepted_under_foreign_key", eng),
+                            format!("a signature made by one key verifies under another: same-set foreign key lib={} model={}, other parameter set {} lib={}; sig {}", f1, m1, L2::NAME, f2, hex_abbrev(&sig)),
+                        );
+                    }
                 }
                 if lib != mdl {
                     out.violate(
